@@ -102,6 +102,12 @@ def make_world(variant, two_clusters):
     add([[1000 + 700 + 41, 1000 + 700 + 200]], next(grp))
     add([[1300, 1650]], next(grp))
     if not two_clusters:
+        # multi-mapped reads whose SECONDARY alignment is the retained one (primary in an unannotated stretch / primary inconsistent):
+        # the retained alignment is a processed read like any other
+        reads.append(W.read_of("mmA_gA", "chr1", [[12801, 13100]], polya=False))
+        reads.append(W.read_of("mmA_gA", "chr1", [S(i) for i in (0, 1, 2, 3, 4)], secondary=True))
+        reads.append(W.read_of("mmB_gB", "chr2", [[501, 700], [1001, 1200]], polya=False))
+        reads.append(W.read_of("mmB_gB", "chr1", [S(i) for i in (0, 2, 3, 4)], secondary=True))
         # the intron-less loci: reads equal to the exon, a read inside it, a spliced read whose intron jumps over the gene
         add([[9501, 10100]], next(grp))
         add([[9501, 10100]], next(grp), polya=True)
@@ -158,9 +164,9 @@ def recount(world, delta, processed, clusters_of_gene):
     exp_i = {}
     undecided = set()
     for r in world["reads"]:
-        if r["name"] not in processed:
-            continue
         B = [tuple(b) for b in r["blocks"]]
+        if (r["name"], tuple(B)) not in processed:
+            continue
         grp = r["name"].split("_")[-1]
         J = [(B[i][1] + 1, B[i + 1][0] - 1) for i in range(len(B) - 1)]
         span = (B[0][0], B[-1][1])
@@ -223,10 +229,10 @@ def case(args):
         shutil.rmtree(d, ignore_errors=True)
         return args[:4], errs, 0
     rows = run.parse_assignments(run.find(out, "OUT", ".read_assignments.tsv"))
-    processed = set(r["read_id"] for r in rows)
+    processed = set((r["read_id"], tuple(r["exon_list"])) for r in rows)
     exons, introns = feature_table(w["genes"])
     # which genes are loaded for a read: genes overlapping the read's alignment cluster (clusters are separated by gaps)
-    reads_sorted = sorted((r for r in w["reads"] if not r.get("unmapped")), key=lambda r: r["blocks"][0][0])
+    reads_sorted = sorted((r for r in w["reads"] if not r.get("unmapped") and r["chr"] == "chr1"), key=lambda r: r["blocks"][0][0])
     clusters = []
     for r in reads_sorted:
         s, e = r["blocks"][0][0], r["blocks"][-1][1]
@@ -237,6 +243,8 @@ def case(args):
     gene_span = {g["id"]: (min(t["exons"][0][0] for t in g["transcripts"]), max(t["exons"][-1][1] for t in g["transcripts"])) for g in w["genes"]}
 
     def visible(r):
+        if r["chr"] != "chr1":
+            return set()
         s = r["blocks"][0][0]
         cl = next(c for c in clusters if c[0] <= s <= c[1])
         direct = set(g for g, (a, b) in gene_span.items() if a <= cl[1] and b >= cl[0])
